@@ -71,7 +71,7 @@ def twin_read(specs, node_id, q, twice=False):
         try:
             out = catalog.perform(W.env, node_id, q, world=W, node_id=node_id)
             tree = compare.canon(out)
-        except Exception as e:  # noqa: BLE001
+        except (Exception, SystemExit) as e:  # noqa: BLE001
             tree = ("exc", type(e).__name__)
         owned_changed = [(r[0], r[1]) for r in W.check_owned()]
         if owned_changed:
@@ -88,6 +88,9 @@ def twin_read(specs, node_id, q, twice=False):
     return tree, info
 
 
+WORKER_READS = 4
+
+
 class ForkReference:
     """
     parent (system-under-test timeline)  <->  SERVER (pristine, never runs library code)  ->  WORKER (runs twin reads)
@@ -96,7 +99,7 @@ class ForkReference:
     bytes.  Before every read it re-seeds the global numpy generator (so the reference always runs under a global
     RNG state unrelated to the timeline's) and after every read it re-fingerprints its process-global state: if
     that changed, the finding is reported with the reply and the worker retires - the server forks a fresh one
-    from its own pristine state for the next request.  Forks per run: 1 server + 1 worker (+1 per tainting read).
+    from its own pristine state for the next request.  Forks per run: 1 server + 1 worker per WORKER_READS reads (+1 per tainting read).
     """
 
     def __init__(self):
@@ -120,6 +123,7 @@ class ForkReference:
     def _serve(self):
         specs = {}
         worker = None  # (pid, to_worker_fd, from_worker_fd)
+        served = 0
 
         def spawn():
             s2w_r, s2w_w = os.pipe()
@@ -160,8 +164,19 @@ class ForkReference:
             elif kind == "quit":
                 break
             elif kind == "read":
+                # the worker is recycled every few reads: process-level state the fingerprint cannot see (an lru_cache, a module
+                # memo) may be touched by a read, and must not accumulate on the reference side the way it does on the timeline
+                if worker is not None and served >= WORKER_READS:
+                    try:
+                        _send(worker[1], ("quit",))
+                    except Exception:  # noqa: BLE001
+                        pass
+                    retire(worker)
+                    worker = None
                 if worker is None:
                     worker = spawn()
+                    served = 0
+                served += 1
                 try:
                     _send(worker[1], msg)
                     status = os.read(worker[2], 1)
